@@ -3,8 +3,8 @@
 pid=$1; i=$2; wt=/tmp/seed-$pid
 cd $wt || exit 2
 git checkout -q -- . 
-PYTHONPATH=$wt timeout 300 /venv/bin/python demo_${pid}_$i.py >/tmp/cs_clean.out 2>&1; c=$?
+PYTHONPATH=$wt timeout 300 /venv/bin/python demo_${pid}_$i.py >/tmp/cs_clean.$pid.$i.out 2>&1; c=$?
 git apply seeded_${pid}_$i.diff || { echo "apply failed"; exit 2; }
-PYTHONPATH=$wt timeout 300 /venv/bin/python demo_${pid}_$i.py >/tmp/cs_mut.out 2>&1; m=$?
+PYTHONPATH=$wt timeout 300 /venv/bin/python demo_${pid}_$i.py >/tmp/cs_mut.$pid.$i.out 2>&1; m=$?
 git checkout -q -- .
-echo "$pid/$i clean_exit=$c ($(tail -1 /tmp/cs_clean.out | cut -c1-60)) patched_exit=$m ($(tail -1 /tmp/cs_mut.out | cut -c1-140))"
+echo "$pid/$i clean_exit=$c ($(tail -1 /tmp/cs_clean.$pid.$i.out | cut -c1-60)) patched_exit=$m ($(tail -1 /tmp/cs_mut.$pid.$i.out | cut -c1-140))"
